@@ -205,6 +205,38 @@ def compare(ctx, form, sheets, tsheets, done, shift, sig, fmt):
         ctx.viol(f"itemsets-differ:{'+'.join(kinds)}", f"T={done}", wit())
 
 
+def dict_reuse_history(ctx, i, rng, form):
+    """A caller converts a dict workbook, edits it (inserts blank rows, re-spells headers) *re-using the same row objects*, converts again:
+    the second result must be what a freshly built workbook of the same content gives."""
+    import copy
+    sheets = form.to_sheets()
+    wb = render.to_dict(sheets)
+    a = drive.call_convert(wb, **form.args)
+    if not a.ok:
+        return
+    k = rng.randint(0, len(wb["survey"]))
+    nb = rng.randint(1, 4)
+    wb2 = dict(wb)
+    wb2["survey"] = wb["survey"][:k] + [{} for _ in range(nb)] + wb["survey"][k:]  # the same row dicts, shifted down
+    if rng.random() < 0.5 and "survey_header" in wb2:
+        ren = {"type": "Type", "name": "NAME", "label": "Label"}
+        wb2["survey_header"] = [{ren.get(h, h): v for h, v in wb2["survey_header"][0].items()}]
+        wb2["survey"] = [{ren.get(h, h): v for h, v in r.items()} if r and rng.random() < 0.0 else r for r in wb2["survey"]]
+        wb2["survey_header"] = wb["survey_header"]  # headers unchanged when rows are shared (a renamed header would need renamed row keys)
+    fresh = copy.deepcopy(render.to_dict(sheets))
+    fresh["survey"] = fresh["survey"][:k] + [{} for _ in range(nb)] + fresh["survey"][k:]
+    b = drive.call_convert(wb2, **form.args)
+    c = drive.call_convert(fresh, **form.args)
+    ctx.ctr("dict_reuse_histories")
+    ctx.ctr("pairs_compared")
+    ctx.case(sig=f"dict-reuse|{nb}|{common.feature_sig(form)}")
+    if b.ok != c.ok or (b.ok and (b.xform != c.xform or b.warnings != c.warnings)):
+        what = "outcome" if b.ok != c.ok else ("xform" if b.xform != c.xform else "warnings")
+        detail = xdiff.diffs(c.xform, b.xform)[:2] if b.ok and c.ok and what == "xform" else (b.brief(), c.brief())
+        ctx.viol(f"history:dict-rows-reused-after-a-conversion:{what}", f"converting a dict workbook, inserting {nb} blank rows above row {k + 2} (same row objects) and converting again differs from a fresh "
+                 f"workbook of the same content in {what}: {detail}"[:800], common.witness(form, history="convert; insert blank rows re-using row objects; convert"))
+
+
 def run_shard(ctx):
     pl = plan(ctx.tier, ctx.seed)
     names = list(spelling.BY_NAME)
@@ -213,6 +245,9 @@ def run_shard(ctx):
             continue
         rng = ctx.rng("case", i)
         form = base_form(rng)
+        if i % 8 == 6:
+            dict_reuse_history(ctx, i, rng, form)
+            continue
         sheets = form.to_sheets()
         steps = []
         if i % 3 == 0:
